@@ -63,7 +63,9 @@ def column_name(draw):
 @st.composite
 def node_inputs(draw):
     cols = draw(st.lists(column_name(), min_size=0, max_size=12, unique=True))
-    required = draw(st.sampled_from([["time"], ["time", "id", "parent_id"]]))
+    # (seg_id is always a standard field; naming it - or any key - twice asks for nothing more)
+    required = draw(st.sampled_from([["time"], ["time", "id", "parent_id"], ["time", "id", "parent_id"],
+                                     ["time", "seg_id"], ["time", "time"], ["time", "id", "parent_id", "seg_id"]]))
     ndim = draw(st.sampled_from([3, 4, None]))
     return {"columns": cols, "required": required, "ndim": ndim}
 
